@@ -66,8 +66,8 @@ def gen_rot(rng):
     return "ROT " + " ".join(hx(float(x)) for x in n) + " %d " % k + " ".join(hx(x) for x in pts), kind, n, k, pts
 
 
-def gen_div(rng, tag):
-    lvl = rng.choice([1, 1, 2])
+def gen_div(rng, tag, coarse_band=False):
+    lvl = rng.choice([1, 1, 2]) if not coarse_band else 2
     n0, f = tissue.icosphere(lvl)
     shape = rng.choice(["sphere", "ellipsoid", "ellipsoid", "elongated", "symmetric_unperturbed"])
     ax = {"sphere": (1, 1, 1), "ellipsoid": (1.0, 0.82, 0.68), "elongated": (1.6, 1.0, 0.9), "symmetric_unperturbed": (1.0, 0.82, 0.68)}[shape]
@@ -83,7 +83,7 @@ def gen_div(rng, tag):
         M = tissue.rnd_rot(rng) if shape != "symmetric_unperturbed" else None
         cells.append((i, tissue.transform(n0, M, (shift[0] + i * 3.5 * R, shift[1], shift[2]), (R, R, R)), f))
     lmin = 7.5e-7 if lvl == 2 else 1.5e-6
-    p = tissue.params(dt=1e-7, damping=5e-10, T=1.0, S=1.0, lmin=lmin * rng.choice([1.0, 0.7, 1.3]), cut_adh=5e-7, cut_rep=5e-7, swap=rng.choice([0, 1]))
+    p = tissue.params(dt=1e-7, damping=5e-10, T=1.0, S=1.0, lmin=lmin * (rng.choice([1.0, 0.7, 1.3, 1.0, 2.5]) if not coarse_band else rng.choice([2.5, 4.0, 6.0])), cut_adh=5e-7, cut_rep=5e-7, swap=rng.choice([0, 1]))
     axk = rng.choice(["natural", "natural", "random", "x", "-x", "y", "-y", "z", "-z"])
     axis = {"natural": [0, 0, 0], "x": [1.0, 0, 0], "-x": [-1.0, 0, 0], "y": [0, 1.0, 0], "-y": [0, -1.0, 0], "z": [0, 0, 1.0], "-z": [0, 0, -1.0]}.get(axk) or rnd_unit(rng)
     line = tissue.fmt_tissue(p, cts, cells) + " DIV %d %d %s" % (rng.randrange(10 ** 6), 0 if axk == "natural" else 1, " ".join(hx(float(x)) for x in axis))
@@ -249,7 +249,9 @@ def run(ck):
         if d:
             broken.append((l, d))
     # ---- end to end
-    cases = [gen_div(rng, "c09_%d" % i) for i in range(ndiv)]
+    # mother meshes much finer than the edge-length band: the cut succeeds and the refinement of the daughters gives up (a failure
+    # raised in the last stage of the pipeline)
+    cases = [gen_div(rng, "c09_cb%d" % i, coarse_band=True) for i in range(4 if ck.tier == "quick" else 60)] + [gen_div(rng, "c09_%d" % i) for i in range(ndiv)]
     from concurrent.futures import ThreadPoolExecutor
     def one(c):
         try:
